@@ -41,7 +41,7 @@ func inRangeFns(p *core.Prog) []*ssa.Function {
 func c06(c *Ctx) {
 	p, r := c.P, c.R
 	r.Technique = "value-flow classification of every uint256 byte decoding by the origin of its operand (database key / XOR distance vs wire radius) against the byte order of the decoder; structural check of every in-range comparison; who-may-write the radius; refusal gate"
-	r.Explanation = "Decides: (R1) byte-order agreement - pebble orders keys bytewise, i.e. as big-endian numbers, so every conversion of a database key or XOR distance into a uint256 that is compared with or stored as the radius must be big-endian (SetBytes...); a little-endian decoder (UnmarshalSSZ) on such bytes contradicts the ordering the prune loop relies on; wire radii (ping/pong payloads, the radius cache) must be decoded little-endian (SSZ); (R2) every in-range function compares the radius with the 256-bit XOR distance of node id and content id, never with the 0..256 log-distance, with the store's strictness radius > distance; (R3) offer filtering (both versions), the store RPC and gossip selection all go through that one helper; (R4) the insufficient-radius error is returned exactly on the failing edge of the strict comparison; (R5) the radius is written only by the constructor (maximum, or the farthest key when nearly full) and by prune, where the stored value derives from the key of an item that is not deleted in that iteration. Not decided: 'every retained item lies within the radius at all times' and 'the radius only shrinks' as invariants over put histories."
+	r.Explanation = "Decides: (R1) byte-order agreement - pebble orders keys bytewise, i.e. as big-endian numbers, so every conversion of a database key or XOR distance into a uint256 that is compared with or stored as the radius must be big-endian (SetBytes...); a little-endian decoder (UnmarshalSSZ) on such bytes contradicts the ordering the prune loop relies on; wire radii (ping/pong payloads, the radius cache) must be decoded little-endian (SSZ); (R2) every in-range function compares the radius with the 256-bit XOR distance of node id and content id, never with the 0..256 log-distance, with the store's strictness radius > distance; (R3) offer filtering (both versions), the store RPC and gossip selection all go through that one helper; (R4) the insufficient-radius error is returned exactly on the failing edge of the strict comparison; (R5) the radius is written only by the constructor (maximum, or the farthest key when nearly full) and by prune, where the stored value derives from the key of an item that is not deleted in that iteration. (R8) every radius put into a ping/pong payload (ping_ext payload constructors, bare-radius pong) is (*uint256.Int).MarshalSSZ of the store's Radius(). Not decided: 'every retained item lies within the radius at all times' and 'the radius only shrinks' as invariants over put histories."
 	r.Assumptions = []string{"uint256.Int.UnmarshalSSZ reads little-endian, SetBytes* big-endian (read in the dependency)", "pebble's default comparer is bytewise"}
 	r.Floor("R1.byte-order", 4)
 	r.Floor("R2.in-range-rule", 2)
@@ -49,6 +49,7 @@ func c06(c *Ctx) {
 	r.Floor("R4.refusal", 2)
 	r.Floor("R5.radius-writers", 2)
 	r.Floor("R6.admission-under-lock", 1)
+	r.Floor("R8.advertised-radius", 6)
 	m, why := newStoreModel(c)
 	if m == nil {
 		r.Fail("R1.byte-order", "radius-store", "-", why)
@@ -369,6 +370,7 @@ func c06(c *Ctx) {
 			}
 		})
 	}
+	advertisedRadiusRule(c, "R8.advertised-radius", 5)
 	errorsExamined(c, "R7.errors-examined", "content store and gossip", []string{"storage/pebble", "portalwire"}, "(*storage/pebble.ContentStorage).", "storage/pebble.NewStorage", ".GossipAndReturnPeers", ".processPing", ".processPongPayload")
 	if sm, _ := newStoreModel(c); sm != nil {
 		pruneScansWholeKeyspace(c, sm, "R5.radius-writers")
